@@ -8,7 +8,7 @@
    list-of-successes function, leaf instances of E1 and the order-freeness of the specification's
    language.  The property is otherwise carried by the correspondence check
    (exhaustive small ASTs x inputs, random stream) against the extracted spec_is_match. *)
-From RX Require Import Base.Prelude Base.InvList Spec.Syntax Spec.Sem Model.Op Model.Engine Proofs.LeafFacts Model.Matcher Model.Api Proofs.EngineFacts Proofs.EngineCorollaries Proofs.LowerFacts Proofs.FragmentSpec Model.Compiler Proofs.QuantFacts Proofs.QuantLaws Proofs.FixedFacts Spec.Parse Proofs.PlainPattern Proofs.PlainSpec.
+From RX Require Import Base.Prelude Base.InvList Spec.Syntax Spec.Sem Model.Op Model.Engine Proofs.LeafFacts Model.Matcher Model.Api Proofs.EngineFacts Proofs.EngineCorollaries Proofs.LowerFacts Proofs.FragmentSpec Model.Compiler Proofs.QuantFacts Proofs.QuantLaws Proofs.FixedFacts Spec.Parse Proofs.PlainPattern Proofs.PlainSpec Proofs.GroupGrammar Proofs.GroupSpec.
 
 (* a literal character is the specification's RChar, at every position, in every context *)
 Theorem C01_literal_partial :
@@ -131,6 +131,23 @@ Theorem C01_ordinary_pattern_end_to_end :
     end.
 Proof. exact ordinary_pattern_end_to_end. Qed.
 
+(* end to end from the pattern and flag strings on the grammar of literals, alternation and
+   capturing / non-capturing groups nested to any depth (grammar trees of Proofs/GroupGrammar.v,
+   printed by show_a): the model's Regex::new (hook constructor: no search shortcuts) + is_match
+   = the specification's parser, flag reader and set semantics; every stage a theorem *)
+Theorem C01_group_grammar_end_to_end :
+  forall xpath a fls input,
+    ok_a xpath a = true -> existsb (N.eqb 59) fls = false ->
+    match spec_flags xpath fls with
+    | Valid sf =>
+        s_q sf = false -> s_x sf = false ->
+        exists re r, regex_new true xpath (show_a a) fls = Ok re /\ spec_parse xpath (show_a a) = Valid r
+                     /\ is_match re input = Ok (spec_is_match sf input r)
+    | Invalid => regex_new true xpath (show_a a) fls = Err EInvalidFlags
+    | Unspecified => True
+    end.
+Proof. exact grammar_end_to_end. Qed.
+
 Print Assumptions C01_literal_partial.
 Print Assumptions C01_class_partial.
 Print Assumptions C01_alternation_is_union.
@@ -140,3 +157,4 @@ Print Assumptions C01_fragment_language_partial.
 Print Assumptions C01_fragment_ends_partial.
 Print Assumptions C01_fragment_quantified_language_partial.
 Print Assumptions C01_ordinary_pattern_end_to_end.
+Print Assumptions C01_group_grammar_end_to_end.
